@@ -586,10 +586,15 @@ impl<'a, 'pat, P: Pe<'a>> Matches<'pat, P> {
 
 		// Clamp the slice to the expected input scan range
 		self.range.start = cmp::max(base, self.range.start);
-		let start = self.range.start - base;
-		let end = cmp::min(base + slice.len() as u32, self.range.end) - base;
+		let start = (self.range.start - base) as usize;
+		let end = cmp::min(slice.len(), (self.range.end - base) as usize);
+		// Nothing to scan if the range is empty or starts beyond the bytes of this slice
+		// (eg. in the virtual-only tail of a section or past the end of a mapped image)
+		if start >= end {
+			return false;
+		}
 
-		self.strategy(qsbuf, &slice[start as usize..end as usize], save)
+		self.strategy(qsbuf, &slice[start..end], save)
 	}
 }
 
